@@ -105,6 +105,35 @@ pub fn straddle_keys(tag: &str, offsets: &[usize]) -> Vec<(String, String)> {
 /// the four kinds of request the limiter REJECTS (an error, not a decision): (burst, count, period, quantity)
 pub const REJECTED: [(i64, i64, i64, i64); 4] = [(0, 1, 3600, 1), (1, 0, 3600, 1), (1, 1, 0, 1), (1, 1, 3600, -1)];
 
+/// positive values on both sides of the widths an intermediate integer type could have (u8, u16, i32, u32, the f64
+/// mantissa, i64), and multiples of 2^32 - whose low 32 bits are all zero
+pub const WIDTH_EDGES: [i64; 13] = [256, 65536, (1 << 31) - 1, 1 << 31, (1 << 31) + 1, (1 << 32) - 1, 1 << 32, (1 << 32) + 1, 1 << 33, 3 << 32, 1 << 53, 1 << 62, i64::MAX];
+
+/// the "hostile numeric lattice": every value of `WIDTH_EDGES` in EACH of max_burst, count_per_period, period and quantity,
+/// one field extreme at a time while the others are valid and small (3, 2, 60, 1), then a few combinations in which all
+/// fields are extreme.  (field that is extreme | "all", max_burst, count_per_period, period, quantity) - 57 requests.
+/// All are well-formed positive requests: each must be ANSWERED (a decision or an error) and leave the service serving.
+pub fn extreme_requests() -> Vec<(&'static str, i64, i64, i64, i64)> {
+    let mut v = vec![];
+    for x in WIDTH_EDGES {
+        v.push(("max_burst", x, 2, 60, 1));
+    }
+    for x in WIDTH_EDGES {
+        v.push(("count_per_period", 3, x, 60, 1));
+    }
+    for x in WIDTH_EDGES {
+        v.push(("period", 3, 2, x, 1));
+    }
+    for x in WIDTH_EDGES {
+        v.push(("quantity", 3, 2, 60, x));
+    }
+    for x in [1i64 << 31, 1 << 32, 3 << 32, i64::MAX] {
+        v.push(("all", x, x, x, x));
+    }
+    v.push(("all", 1 << 33, 1 << 32, 3 << 32, 1));
+    v
+}
+
 /// prefix lengths of the key families
 pub const FAMILY_PREFIXES: [usize; 5] = [1024, 64, 256, 4096, 16384];
 
@@ -547,6 +576,28 @@ pub fn run(seed: u64, n: usize, out: &mut Out) {
                 let at = rng.below(units.len() as u64 + 1) as usize;
                 units.insert(at, unit);
             }
+            if batch % 4 == 2 {
+                // the hostile numeric lattice (`extreme_requests`: 2^31, 2^32, 2^33, 3 x 2^32, 2^53, 2^63-1, ... in each field,
+                // one field at a time): a quarter of it per such batch, in turn; one key per extreme field; then a probe
+                let k = batch / 4;
+                let mut unit = vec![];
+                for (i, (field, b, c, p, q)) in extreme_requests().into_iter().enumerate() {
+                    if i % 4 != k % 4 {
+                        continue;
+                    }
+                    let key = format!("x{}_{field}", batch % 10000);
+                    let mut xs = vec![bulk(&throttle_name(&mut rng)), bulk(&key), num_arg(&mut rng, b), num_arg(&mut rng, c), num_arg(&mut rng, p)];
+                    if q != 1 || rng.chance(1, 2) {
+                        xs.push(num_arg(&mut rng, q));
+                    }
+                    unit.push((RespValue::Array(xs), Intent::Forward(key, b, c, p, q), Some("extreme")));
+                }
+                let key = format!("xprobe{}", batch % 10000);
+                let xs = vec![bulk("THROTTLE"), bulk(&key), num_arg(&mut rng, 2), num_arg(&mut rng, 1), num_arg(&mut rng, 60)];
+                unit.push((RespValue::Array(xs), Intent::Forward(key, 2, 1, 60, 1), Some("extreme-probe")));
+                let at = rng.below(units.len() as u64 + 1) as usize;
+                units.insert(at, unit);
+            }
             let mut limiter_gone = false;
             for (v, intent, hostile) in units.into_iter().flatten() {
                 let (ex, before, after, _moved) = exec_command(&v, &handle, &metrics).await;
@@ -691,6 +742,19 @@ pub fn run(seed: u64, n: usize, out: &mut Out) {
                             format!("{half} THROTTLE <key of {klen} bytes> 1 1 3600, the key being one of several distinct long keys that share a prefix, each used for the first time in this batch: the limiter decided {shown:?}, reply {}; want{want}.. (budgets of distinct keys are independent)", show(reply)),
                             these.iter().map(|l| if l.len() > 600 { format!("{}...", &l[..600]) } else { l.clone() }).collect(),
                         );
+                    }
+                }
+                if hostile == Some("extreme") {
+                    out.bump("extreme_number_commands");
+                }
+                if hostile == Some("extreme-probe") {
+                    out.bump("extreme_number_probes");
+                    if !(procs.len() == 1 && procs[0].contains(" -> ok,1,2,1,")) && !limiter_gone {
+                        out.violation("C11", format!("after THROTTLEs with extreme (positive, well-formed) numbers the probe THROTTLE <fresh key> 2 1 60 gives limiter log {:?}, reply {}; want the decision ok,1,2,1,..", procs.iter().map(|p| p.rsplit(" -> ").next().unwrap_or("")).collect::<Vec<_>>(), show(reply)), {
+                            let mut replay = batch_replay.iter().rev().take(16).rev().cloned().collect::<Vec<_>>();
+                            replay.extend(these.clone());
+                            replay
+                        });
                     }
                 }
                 if hostile == Some("rejected") {
